@@ -535,6 +535,22 @@ M("c03-resume-neg-sign-default", "C03", "json_tokener.c",
 M("c03-benign-resume-strpbrk", "C03", "json_tokener.c",
   "\t\t\t\tchar *e_loc = strchr(tok->pb->buf, 'e');\n\t\t\t\tif (!e_loc)\n\t\t\t\t\te_loc = strchr(tok->pb->buf, 'E');\n",
   "\t\t\t\tchar *e_loc = strpbrk(tok->pb->buf, \"eE\");\n", expect="silent")
+M("c01-literal-true-built-false", "C01", "json_tokener.c",
+  "\t\t\t\t\tcurrent = json_object_new_boolean(1);", "\t\t\t\t\tcurrent = json_object_new_boolean(0);", needle="C01.R8")
+M("c16-strict-literal-caseless", "C16", "json_tokener.c",
+  "\t\t\tif ((!(tok->flags & JSON_TOKENER_STRICT) &&\n\t\t\t     strncasecmp(json_true_str, tok->pb->buf, size1) == 0) ||",
+  "\t\t\tif ((strncasecmp(json_true_str, tok->pb->buf, size1) == 0) ||", needle="C16.X4")
+M("c16-default-literal-exact-only", "C16", "json_tokener.c",
+  "\t\t\telse if ((!(tok->flags & JSON_TOKENER_STRICT) &&\n\t\t\t          strncasecmp(json_false_str, tok->pb->buf, size2) == 0) ||\n\t\t\t         (strncmp(json_false_str, tok->pb->buf, size2) == 0))",
+  "\t\t\telse if (strncmp(json_false_str, tok->pb->buf, size2) == 0)", needle="C16.X4.default")
+M("c04-depth-check-containers-only", "C04", "json_tokener.c",
+  "\t\t\tif (tok->depth >= tok->max_depth - 1)\n\t\t\t{\n\t\t\t\ttok->err = json_tokener_error_depth;\n\t\t\t\tgoto out;\n\t\t\t}\n\t\t\tstate = json_tokener_state_object_value_add;",
+  "\t\t\tif (tok->depth >= tok->max_depth - 1 && (c == '[' || c == '{'))\n\t\t\t{\n\t\t\t\ttok->err = json_tokener_error_depth;\n\t\t\t\tgoto out;\n\t\t\t}\n\t\t\tstate = json_tokener_state_object_value_add;",
+  needle="C04.R8")
+M("c02-noslash-skips-next-byte", "C02", "json_object.c",
+  "\t\t\tif ((flags & JSON_C_TO_STRING_NOSLASHESCAPE) && c == '/')\n\t\t\t{\n\t\t\t\tpos++;\n\t\t\t\tbreak;\n\t\t\t}",
+  "\t\t\tif ((flags & JSON_C_TO_STRING_NOSLASHESCAPE) && c == '/')\n\t\t\t{\n\t\t\t\tpos += 2;\n\t\t\t\tif (len)\n\t\t\t\t\t--len;\n\t\t\t\tbreak;\n\t\t\t}",
+  needle="C02.R1")
 M("c02-benign-escape-reorder", "C02", "json_object.c",
   "\t\t\tif (c == '\\b')\n\t\t\t\tprintbuf_memappend(pb, \"\\\\b\", 2);\n\t\t\telse if (c == '\\n')\n\t\t\t\tprintbuf_memappend(pb, \"\\\\n\", 2);",
   "\t\t\tif (c == '\\n')\n\t\t\t\tprintbuf_memappend(pb, \"\\\\n\", 2);\n\t\t\telse if (c == '\\b')\n\t\t\t\tprintbuf_memappend(pb, \"\\\\b\", 2);", expect="silent")
